@@ -290,6 +290,25 @@ pub fn run(tier: Tier) -> i32 {
     c.extra.insert("notations_parsed_by_library".into(), json!(parsed_by_lib));
     c.extra.insert("notations_total".into(), json!(cases.len()));
 
+    if cfg!(in_toto_verif_nosites) {
+        // no clock seam: only the real-clock legs (hooks-off binary and the same battery in-process)
+        let wall = crate::plain::wallclock_plain();
+        let mut acc = Acc::new();
+        for (text, delta_s, outcome) in &wall {
+            acc.evaluations += 1;
+            acc.nontrivial += 1;
+            acc.outcome(&format!("wall-clock|{}|{}", if *delta_s < 0 { "expired" } else { "not-expired" }, if outcome.starts_with("ok") { "ok" } else { "err" }));
+            if outcome.starts_with("ok") && *delta_s < 0 {
+                acc.violation("expired-accepted:wall-clock", &format!("a layout that expired {delta_s} s ago ({text}) was accepted"), || json!({"level": "wall-clock", "expires": text, "delta_s": delta_s}));
+            }
+        }
+        acc.sample(|| json!({"level": "wall-clock", "cases": wall.len()}));
+        c.acc = acc;
+        c.exhaustive = false;
+        c.rule = "degraded run (no clock seam): expiry = real clock + {-1y,-1d,-1h,-2s,+1h,+1d,+1y} in 4 offset notations through the hooks-off binary".into();
+        c.bound_completed = "wall-clock leg only".into();
+        return c.finish();
+    }
     let sub_every = if tier.thorough() { 1 } else { 3 };
     let idx: Vec<usize> = (0..cases.len()).collect();
     let accs = util::par_fold(
